@@ -88,7 +88,7 @@ func checkC01(c *Ctx) {
 		var bad []string
 		sites := p.SitesMayCall(fn)
 		for _, s := range sites {
-			if eng.Outer(s.Parent()) != deliver {
+			if ok, _ := p.OnlyReachedFrom(eng.Outer(s.Parent()), func(g *ssa.Function) bool { return g == deliver }); !ok {
 				bad = append(bad, shortFn(s.Parent())+" at "+p.InstrPos(s))
 			}
 		}
@@ -100,10 +100,10 @@ func checkC01(c *Ctx) {
 		}
 		r.Count("AddMessage call sites", len(sites))
 	}
-	r.Floor("C01/WMC", "non-test Store implementers", nImpl, 2)
+	r.Floor("C01/WMC", "non-test Store implementers", nImpl, 1)
 	// interface-level sites as cross-check
 	for _, s := range p.SitesCalling(addObj) {
-		if eng.Outer(s.Parent()) != deliver {
+		if ok, _ := p.OnlyReachedFrom(eng.Outer(s.Parent()), func(g *ssa.Function) bool { return g == deliver }); !ok {
 			r.Bad("C01/WMC", "AddMessage:interface-site@"+shortFn(s.Parent()), p.InstrPos(s), "Store.AddMessage is called outside StoreManager.Deliver")
 		}
 	}
@@ -133,22 +133,49 @@ func checkC01(c *Ctx) {
 
 	// ---- D3
 	var adds []*ssa.Call
-	for _, g := range eng.WithAnons(deliver) {
+	var dfns []*ssa.Function
+	for g := range p.SyncReach(deliver) {
+		if eng.FuncPkgPath(g) == eng.Mod+"/pkg/message" {
+			dfns = append(dfns, g)
+		}
+	}
+	sort.Slice(dfns, func(i, j int) bool { return dfns[i].String() < dfns[j].String() })
+	for _, g := range dfns {
 		eng.EachInstr(g, func(in ssa.Instruction) {
 			if call, ok := in.(*ssa.Call); ok && eng.IsCallTo(call.Common(), addObj) {
 				adds = append(adds, call)
 			}
 		})
 	}
+	// chainLoops: the loops enclosing a site, counted along the (single) call chain up to Deliver
+	var chainLoops func(in ssa.Instruction, depth int) ([]*ssa.BasicBlock, bool)
+	chainLoops = func(in ssa.Instruction, depth int) ([]*ssa.BasicBlock, bool) {
+		hs := loopHeaders(in.Block())
+		fn := in.Parent()
+		if fn == deliver {
+			return hs, true
+		}
+		if depth > 4 {
+			return nil, false
+		}
+		sites := p.StaticCallSites(fn)
+		if len(sites) != 1 {
+			return nil, false
+		}
+		up, ok := chainLoops(sites[0].Instr.(ssa.Instruction), depth+1)
+		return append(hs, up...), ok
+	}
 	var postHook ssa.Value // the phi of (policy branch, extension branch)
 	if len(adds) != 1 {
 		r.Bad("C01/ONCE/fanout", "single-site", p.Pos(deliver.Pos()), "Deliver contains %d AddMessage call sites; exactly one is required (a second site stores a message twice or to an extra mailbox)", len(adds))
 	} else {
 		add := adds[0]
-		hs := loopHeaders(add.Block())
+		hs, chainOK := chainLoops(add, 0)
 		okLoop := false
 		detail := ""
-		if len(hs) != 1 {
+		if !chainOK {
+			detail = "the function containing the AddMessage site is not reached from Deliver through a single call chain"
+		} else if len(hs) != 1 {
 			detail = "the AddMessage site is nested in " + string(rune('0'+len(hs))) + " loops; exactly one (over the destination mailboxes) is required"
 		} else {
 			h := hs[0]
@@ -265,28 +292,91 @@ func (c *Ctx) c01Mailboxes(deliver *ssa.Function, fMailboxes, fRecipMb *types.Va
 		n++
 		var probs []string
 		seen := map[ssa.Value]bool{}
-		var walk func(v ssa.Value)
-		walk = func(v ssa.Value) {
+		type env map[*ssa.Parameter]ssa.Value
+		res := func(v ssa.Value, e env) ssa.Value {
+			for i := 0; i < 4; i++ {
+				prm, ok := v.(*ssa.Parameter)
+				if !ok {
+					break
+				}
+				a, ok := e[prm]
+				if !ok {
+					break
+				}
+				v = a
+			}
+			return v
+		}
+		// guardedByShouldStore: the instruction at is not reachable from its function's entry
+		// without taking the ShouldStore(recip)==true edge, once edges that contradict
+		// constant arguments of the enclosing helper are removed
+		guardedByShouldStore := func(at ssa.Instruction, recip ssa.Value, e env) bool {
+			fn := at.Parent()
+			edgeOK := func(b *ssa.BasicBlock, k int) bool {
+				cv, pol, ok := eng.CondTruth(b, k)
+				if !ok {
+					return true
+				}
+				if call, ok := cv.(*ssa.Call); ok && eng.StaticCallee(call.Common()) == shouldStore && call.Call.Args[0] == recip && pol {
+					return false // do not take the guard's true edge
+				}
+				if prm, ok := cv.(*ssa.Parameter); ok {
+					if bv, isC := eng.ConstBool(res(prm, e)); isC && bv != pol {
+						return false // infeasible under the constant argument
+					}
+				}
+				return true
+			}
+			start := fn.Blocks[0]
+			if fn == deliver {
+				start = s.Store.Block() // irrelevant: in Deliver the dominance form below is used
+			}
+			hit := (&eng.Search{Target: func(in ssa.Instruction) bool { return in == at }, Edge: edgeOK}).FromBlockStart(start)
+			return hit == nil
+		}
+		var walk func(v ssa.Value, e env)
+		walk = func(v ssa.Value, e env) {
+			v = res(v, e)
 			if seen[v] {
 				return
 			}
 			seen[v] = true
 			switch x := v.(type) {
 			case *ssa.Phi:
-				for _, e := range x.Edges {
-					walk(e)
+				for _, ed := range x.Edges {
+					walk(ed, e)
 				}
 			case *ssa.Slice:
 				if k, ok := eng.ConstInt(x.High); !(ok && k == 0) {
 					probs = append(probs, "base list is not emptied ([:0]) at "+p.InstrPos(x))
 				}
 			case *ssa.Const:
+			case *ssa.MakeSlice:
+				if k, ok := eng.ConstInt(x.Len); !(ok && k == 0) {
+					probs = append(probs, "base list is not empty at "+p.InstrPos(x))
+				}
 			case *ssa.Call:
 				if eng.CalleeName(x.Common()) != "builtin.append" {
+					// a module helper building the list from its parameters
+					if rets, g := eng.ReturnedValues(x, 0); g != nil && len(rets) > 0 {
+						ne := env{}
+						for k2, v2 := range e {
+							ne[k2] = v2
+						}
+						for i, prm := range g.Params {
+							if i < len(x.Call.Args) {
+								ne[prm] = res(x.Call.Args[i], e)
+							}
+						}
+						for _, rv := range rets {
+							walk(rv, ne)
+						}
+						return
+					}
 					probs = append(probs, "destination list produced by "+eng.CalleeName(x.Common())+" at "+p.InstrPos(x))
 					return
 				}
-				walk(x.Call.Args[0])
+				walk(x.Call.Args[0], e)
 				// appended elements
 				okEl := false
 				if sl, ok := x.Call.Args[1].(*ssa.Slice); ok {
@@ -298,7 +388,6 @@ func (c *Ctx) c01Mailboxes(deliver *ssa.Function, fMailboxes, fRecipMb *types.Va
 									if !ok {
 										continue
 									}
-									// st.Val = recip.Mailbox with recip = recipients[i]
 									u, ok := st.Val.(*ssa.UnOp)
 									if !ok || !eng.SameField(eng.AddrField(u.X), fRecipMb) {
 										probs = append(probs, "appended value is not recip.Mailbox at "+p.InstrPos(st))
@@ -311,13 +400,13 @@ func (c *Ctx) c01Mailboxes(deliver *ssa.Function, fMailboxes, fRecipMb *types.Va
 										continue
 									}
 									ia2, ok := ru.X.(*ssa.IndexAddr)
-									if !ok || ia2.X != ssa.Value(recipients) {
+									if !ok || res(ia2.X, e) != ssa.Value(recipients) {
 										probs = append(probs, "appended mailbox does not belong to an element of the recipients parameter")
 										continue
 									}
-									// guarded by ShouldStore(recip) true
 									g := false
-									for _, b := range deliver.Blocks {
+									fnA := x.Parent()
+									for _, b := range fnA.Blocks {
 										for k := 0; k < len(b.Succs) && len(b.Succs) == 2; k++ {
 											cv, pol, ok := eng.CondTruth(b, k)
 											if !ok || !pol || !eng.EdgeDominates(b, k, x.Block()) {
@@ -327,6 +416,9 @@ func (c *Ctx) c01Mailboxes(deliver *ssa.Function, fMailboxes, fRecipMb *types.Va
 												g = true
 											}
 										}
+									}
+									if !g && fnA != deliver {
+										g = guardedByShouldStore(x, recip, e)
 									}
 									if !g {
 										probs = append(probs, "recip.Mailbox is appended at "+p.InstrPos(x)+" without recip.ShouldStore() being true for the same recipient: mail for a discard domain is stored")
@@ -345,7 +437,7 @@ func (c *Ctx) c01Mailboxes(deliver *ssa.Function, fMailboxes, fRecipMb *types.Va
 				probs = append(probs, "unclassified destination list source at "+valuePos(p, v))
 			}
 		}
-		walk(s.Store.Val)
+		walk(s.Store.Val, env{})
 		sort.Strings(probs)
 		if len(probs) > 0 {
 			r.Bad("C01/FLOW/mailboxes", "policy-branch", p.InstrPos(s.Store), "%s", strings.Join(probs, "; "))
@@ -439,7 +531,7 @@ func (c *Ctx) c01Meta(deliver *ssa.Function, adds []*ssa.Call, postHook ssa.Valu
 	want := map[string]string{"From": "From", "To": "To", "Subject": "Subject", "Size": "Size"}
 	got := map[string]bool{}
 	var probs []string
-	eng.EachInstr(deliver, func(in ssa.Instruction) {
+	eng.EachInstr(adds[0].Parent(), func(in ssa.Instruction) {
 		st, ok := in.(*ssa.Store)
 		if !ok {
 			return
@@ -461,7 +553,7 @@ func (c *Ctx) c01Meta(deliver *ssa.Function, adds []*ssa.Call, postHook ssa.Valu
 		case name == "Mailbox":
 			// element of the ranged Mailboxes
 			okMb := false
-			if u, ok := st.Val.(*ssa.UnOp); ok {
+			if u, ok := p.Actual(st.Val).(*ssa.UnOp); ok {
 				if ia, ok := u.X.(*ssa.IndexAddr); ok && eng.SameField(eng.LoadedField(ia.X), fMailboxes) {
 					if ia.X.(*ssa.UnOp).X.(*ssa.FieldAddr).X == postHook {
 						okMb = true
@@ -475,7 +567,7 @@ func (c *Ctx) c01Meta(deliver *ssa.Function, adds []*ssa.Call, postHook ssa.Valu
 			f := eng.LoadedField(st.Val)
 			okF := f != nil && f.Name() == want[name]
 			if okF {
-				if base, ok := st.Val.(*ssa.UnOp).X.(*ssa.FieldAddr); !ok || base.X != postHook {
+				if base, ok := st.Val.(*ssa.UnOp).X.(*ssa.FieldAddr); !ok || p.Actual(base.X) != postHook {
 					okF = false
 				}
 			}
